@@ -31,7 +31,7 @@ def ion_names():
 
 def photo_case(rng, i):
     nsub = [rng.choice([1, 2, 2, 3]) for _ in range(3)]
-    cps = rng.choice([2, 4])
+    cps = [rng.choice([2, 3, 4]) for _ in range(3)]     # subgrids are not cubes in general
     L = 10.0 ** rng.uniform(15, 17)
     periodic = [rng.chance(0.3) for _ in range(3)]
     anyp = any(periodic)
@@ -41,21 +41,26 @@ def photo_case(rng, i):
     weak = anyp or rng.chance(0.4)
     diffuse = rng.choice([None, "FixedValue", "Physical"])
     lum = 1e-30 if weak else 1e49
-    cfg = dict(ncell=[n * cps for n in nsub], nsub=nsub, periodic=periodic, copy_level=rng.choice([0, 1, 2]) if nsrc else 0,
+    cfg = dict(ncell=[n * c for n, c in zip(nsub, cps)], nsub=nsub, periodic=periodic, copy_level=rng.choice([0, 1, 2]) if nsrc else 0,
                nphoton=rng.choice([100, 999, 2000, 10000]), niter=rng.choice([1, 2, 3]), seed=rng.randint(1, 10 ** 6),
                box=([-0.5 * L] * 3, [L] * 3), density=tau / (6.3e-22 * L), sigma_H=6.3e-22, luminosity=lum,
                cont_flux=lum / (6 * L * L), sources=[tuple(rng.uniform(-0.45, 0.45) * L for _ in range(3)) for _ in range(nsrc)],
                continuous=cont, diffuse=diffuse, nbuffers=27 * nsub[0] * nsub[1] * nsub[2] * 5 + 600, queue=30000, shared_queue=30000, ntasks=60000,
                cross="Verner" if (diffuse == "Physical" or rng.chance(0.3)) else "FixedValue", temperature=rng.chance(0.3),
                writer=rng.choice(["AsciiFile", "Gadget", "Gadget"]))
-    toggles = dict(trackers=rng.chance(0.3), task_plot=rng.chance(0.2), field_selection=rng.choice([None, None, "He-only", "sparse"]))
+    toggles = dict(trackers=rng.chance(0.3), task_plot=rng.chance(0.2), field_selection=rng.choice([None, None, "He-only", "sparse"]),
+                   dark_discrete_source=bool(cont and nsrc and rng.chance(0.35)))
+    if toggles["dark_discrete_source"]:
+        # a discrete source distribution whose total luminosity is exactly zero next to a continuous source: the code
+        # warns, disables the discrete sources and carries on with the continuous one
+        cfg["discrete_luminosity"] = 0.
     return dict(mode="photo", cfg=cfg, toggles=toggles, threads=rng.choice([1, 4]))
 
 
 def rhd_case(rng, i):
     nsub = [rng.choice([1, 2, 2]) for _ in range(3)]
-    cps = rng.choice([2, 4])
-    ncell = [n * cps for n in nsub]
+    cps = [rng.choice([2, 3, 4, 6]) for _ in range(3)]  # subgrids are not cubes in general
+    ncell = [n * c for n, c in zip(nsub, cps)]
     periodic = [True] * 3 if rng.chance(0.4) else [rng.chance(0.4) for _ in range(3)]
     radiation = rng.chance(0.5)
     L = 3e16 if radiation else 1.0
@@ -235,6 +240,20 @@ def main():
         for i in range(nasan):
             r = rng.fork("a%d" % i)
             case = photo_case(r, i) if i % 2 == 0 else rhd_case(r, i)
+            # structured corners that are always present (the rest is random)
+            if i == 0:      # continuous source next to a discrete source of zero total luminosity
+                case["cfg"]["continuous"] = case["cfg"]["continuous"] or "Isotropic"
+                if not case["cfg"]["sources"]:
+                    case["cfg"]["sources"] = [(0., 0., 0.)]
+                case["cfg"]["discrete_luminosity"] = 0.
+                case["toggles"]["dark_discrete_source"] = True
+            if i == 1:      # all live output calculators on subgrids with more cells in y than in x (and in z than in y)
+                case["toggles"]["live"] = "all"
+                case["cfg"]["ncell"] = [2 * case["cfg"]["nsub"][0], 4 * case["cfg"]["nsub"][1], 6 * case["cfg"]["nsub"][2]]
+                case["toggles"]["mask"] = False
+            if i == 3:
+                case["toggles"]["live"] = "surface"
+                case["cfg"]["ncell"] = [6 * case["cfg"]["nsub"][0], 2 * case["cfg"]["nsub"][1], 3 * case["cfg"]["nsub"][2]]
             jobs.append((i, case, exe_asan, root, "asan"))
         for i in range(nmem):
             r = rng.fork("m%d" % i)
